@@ -667,4 +667,59 @@ theorem magang_group_size_le_two (l : List (Int × Int)) (hl : l.Nodup) (k : Int
 example : ∃ l : List (Int × Int), l.Nodup ∧ (l.filter (fun p => Generated.C11.magangKey p.1 p.2 = (2, 2))).length = 2 :=
   ⟨[(2, 2), (3, 1), (2, -2)], by decide, by decide⟩
 
+
+/-- `nm_to_name` together with `_name_helper` (whole bodies; every string replaced by its structure code: constant names, ordinal
+    word `_names.get(k, f'{k}th')` ↦ k, column word `_names_m.get(k, f'{k}-foil')` ↦ k, suffix ↦ 0..3) returns — never raises — the
+    structure of the model on every valid order: the order of the special cases (piston, tilt, defocus, spherical), which ordinal
+    goes with which branch, and the X/Y/00°/45° rule -/
+theorem gen_nameKey (n m : Int) (h : Valid n m) : Generated.C11.nameKey n m = some (Model.C11.nameKey n m) := by
+  first
+  | exact rfl
+  | skip
+    have hv := h
+    obtain ⟨h1, h2⟩ := hv
+    rcases nameKey_cases n m h with ⟨a, b, k⟩ | ⟨a, b, k⟩ | ⟨a, b, k⟩ | ⟨a, b, k⟩ | ⟨a, b, k⟩ | ⟨a, b, c, k⟩ | ⟨a, b, c, k⟩ | ⟨a, b, c, k⟩ | ⟨a, b, c, k⟩
+    · subst a; subst b; rw [k]; simp [Generated.C11.nameKey]
+    · subst a; subst b; rw [k]; simp [Generated.C11.nameKey, Generated.C11.sign]
+    · subst a; subst b; rw [k]; simp [Generated.C11.nameKey, Generated.C11.sign]
+    · subst a; subst b; rw [k]; simp [Generated.C11.nameKey]
+    · subst b
+      have hn : n % 2 = 0 := by simp only [iabs] at h2; omega
+      have e := gen_sphericalAccessor n 0 hn
+      unfold Generated.C11.sphericalAccessor Model.C11.sphericalAccessor at e
+      rw [k]
+      simp only [Generated.C11.nameKey, show ¬ (n = 0) by omega, show ¬ (n = 1) by omega, show ¬ (n = 2) by omega,
+        if_false, if_true, false_and, e]
+    all_goals
+      have hm : m ≠ 0 := by omega
+      have e := gen_nameAccessor n m h hm a
+      have hs : Generated.C11.sign m = if m < 0 then -1 else 1 := gen_sign m
+      rw [k]
+      rcases iabs_cases m with ⟨s, ia⟩ | ⟨s, ia⟩
+      · have s' : ¬ (m < 0) := by omega
+        rw [if_neg s'] at hs
+        simp only [Generated.C11.nameKey, e, Model.C11.nameAccessor, Generated.C11.isOdd, hs, ia, Option.bind_some,
+          show ¬ (n = 0) by omega, show ¬ (n = 1) by omega, hm, c, s, s', if_false, if_true, and_false, false_and]
+        first | omega | (simp <;> omega)
+      · have s' : ¬ (0 ≤ m) := by omega
+        rw [if_pos s] at hs
+        simp only [Generated.C11.nameKey, e, Model.C11.nameAccessor, Generated.C11.isOdd, hs, ia, Option.bind_some,
+          show ¬ (n = 0) by omega, show ¬ (n = 1) by omega, hm, c, s, s', if_false, if_true, and_false, false_and]
+        first | omega | (simp <;> omega)
+
+/-- `nm_to_name` is one-to-one on the valid orders, stated over the translated function: two valid orders whose names have the same
+    structure (kind, ordinal, column word, suffix) are the same order.  (That different structures print as different strings rests on
+    `names_tables_distinct` and the f-string layout; compared on every valid order up to the tier bound.) -/
+theorem name_injective (n m n' m' : Int) (h : Valid n m) (h' : Valid n' m')
+    (e : Generated.C11.nameKey n m = Generated.C11.nameKey n' m') : n = n' ∧ m = m' := by
+  rw [gen_nameKey n m h, gen_nameKey n' m' h'] at e
+  exact nameKey_injective n m n' m' h h' (Option.some.inj e)
+
+/-- `nm_to_name` returns a name for every valid order (the division by `|m|` / the table look-ups never raise) -/
+theorem name_total (n m : Int) (h : Valid n m) : (Generated.C11.nameKey n m).isSome = true := by
+  rw [gen_nameKey n m h]; rfl
+
+example : Generated.C11.nameKey 6 (-4) = some (4, 2, 4, 3) ∧ Generated.C11.nameKey 4 (-4) = some (4, 1, 4, 3) := by
+  constructor <;> (rw [gen_nameKey _ _ (by decide)]; rfl)
+
 end C11
